@@ -11,6 +11,7 @@ import Mathlib.Tactic.Positivity
 import Mathlib.Tactic.Ring
 import Mathlib.Tactic.SplitIfs
 import Mathlib.Tactic.Tauto
+import PhotVerif.Gen.ForwardTable
 
 namespace PhotVerif.C15
 open PhotVerif PhotVerif.Model.Units
@@ -177,5 +178,15 @@ theorem float_guards :
 example : processQuantities [.absent, .unit 3, .unit 3] = .ok (some 3) := by decide
 example : processQuantities [.plain, .unit 3] = .error .ValueError := by decide
 example : totalError2 8 3 2 = .ok 13 := by decide +kernel
+
+/-! ### no delegating call in this property's modules drops an argument it holds (table regenerated from the source) -/
+
+/-- TABLE OBLIGATION: in the modules of this property, every call that delegates to another photutils function, method or
+    constructor passes on each value the caller holds under the callee's own parameter name (its own parameters, `self.<name>`
+    attributes set in `__init__`) - dropped `subpixels`, `mask`, `connectivity`, `include_localbkg` ... keywords were a recurring
+    kind of seeded change -/
+theorem no_dropped_arguments : Gen.ForwardTable.droppedIn Gen.ForwardTable.scopeC15 =
+    -- the one intended exception: the 'center' masks are built with method='center', which ignores `subpixels`
+    [("aperture/stats.py", "ApertureStats._aperture_masks_center", "to_mask", "subpixels")] := by decide
 
 end PhotVerif.C15
